@@ -69,6 +69,9 @@ func runC14(rc *RunCtx) {
 	// the server's goroutines before any datagram: whatever else is alive when the
 	// system is idle again belongs to an association (whoever started it, under
 	// whatever name)
+	// (taken once the handler has reached its first read, so that helpers it
+	// starts for itself are part of the baseline)
+	simrt.Sleep(time.Millisecond)
 	baseTasks := map[int]bool{}
 	for _, t := range simrt.Snapshot() {
 		baseTasks[t.ID] = true
